@@ -17,6 +17,7 @@ from ..interp import Path
 from ..loader import AnalysisError, Program
 from ..model import Model, SchemaType
 from ..report import Run
+from ..engine import Interp
 from ..values import Const, DictV, ListV, StrV, Sym, Term, TupleV, V, is_ell
 from ..visits import Config, configs_for, key_tables, list_shapes, member, representor_ctx, run_visit
 from .c17 import order_taint
@@ -157,6 +158,7 @@ def check(run: Run, prog: Program, model: Model, tier: str) -> None:
     run.floor("EMIT-REPLAY", 80)
 
     # determinism of the representor (C17's taint rule applied to representation/)
+    _canonical_any(run, prog, model)
     rep = model.visitors["Representor"]
     bad = 0
     for m in rep.methods.values():
@@ -174,6 +176,56 @@ def check(run: Run, prog: Program, model: Model, tier: str) -> None:
                 bad += 1
     if not bad:
         run.holds("DETERMINISTIC", "Representor (all methods)", rep.loc, "no set-order / id / hash dependence", nontrivial=False)
+
+
+def _canonical_any(run: Run, prog: Program, model: Model) -> None:
+    """CANONICAL-ANY: the representor prints the members of a union one by one, and evaluating `schema.any(...)`
+    flattens typed unions among them; the round trip therefore needs every constructor of a union (`schema.any(..)` and
+    `a | b`) to store a FLAT tuple - a typed union kept as a member prints as nested text that evaluates to another schema."""
+    from ..values import PropsV, SchemaV, TupleV
+    from ..visits import member
+    from ..loader import FuncInfo
+    st = model.schemas["AnySchema"]
+
+    def anyu(*tokens: V) -> V:
+        return SchemaV(st.cls, PropsV(st.props_cls, {"types": TupleV(list(tokens))}, "schema"), "param")
+    ov = model.overrides.get("__or__")
+    ctors = [("schema.any(any(a1, a2), any(b1, b2))", st.cls.methods.get("__call__"), True)]
+    if ov is not None and isinstance(ov[0], FuncInfo):
+        ctors.append(("any(a1, a2) | any(b1, b2)", ov[0], False))
+    for label, fn, is_method in ctors:
+        if fn is None:
+            continue
+        it = Interp(prog, model, unroll=2, max_depth=14)
+        it.max_recursion = 4            # type: ignore[attr-defined]
+
+        def run1(i: Interp) -> V:
+            a, b = anyu(member("A1"), member("A2")), anyu(member("B1"), member("B2"))
+            if is_method:
+                return i.call_function(fn, [a, b], {}, self_val=SchemaV(st.cls, PropsV(st.props_cls, {}, "schema"), "self"))
+            return i.call_function(fn, [a, b], {})
+        nested = flat = 0
+        for p in it.run_paths(run1):
+            v = p.value
+            if p.outcome != "return" or not isinstance(v, SchemaV) or not isinstance(v.props, PropsV):
+                continue
+            t = v.props.vals.get("types")
+            if not isinstance(t, TupleV):
+                continue
+            if any(isinstance(x, SchemaV) and x.cls is not None and x.cls.name == "AnySchema" and isinstance(x.props, PropsV)
+                   and "types" in x.props.vals for x in t.items):
+                nested += 1
+            else:
+                flat += 1
+        if nested:
+            run.violated("CANONICAL-ANY", label, fn.loc,
+                         "a typed union is stored as a member of the union: repr prints `schema.any(.., schema.any(..))`, whose "
+                         "evaluation flattens it into a different (unequal) schema",
+                         witness="s = (a | b) | (c | d); eval(repr(s)) != s")
+        elif flat:
+            run.holds("CANONICAL-ANY", label, fn.loc, "members are flattened on construction", nontrivial=True)
+        else:
+            run.undecided("CANONICAL-ANY", label, fn.loc, "no returning path with a types tuple")
 
 
 def _check_emission(run: Run, prog: Program, model: Model, st: SchemaType, ta: TypeAutomaton, cfg: Config,
